@@ -1,6 +1,6 @@
 SPECIFICATION Spec
-CONSTANT Configs <- ConfigsFull
-CONSTANT RandVals <- RandValsSmall
+CONSTANT Configs <- ConfigsBytes
+CONSTANT RandVals <- RandValsBytes
 CONSTANT K = 1
 CONSTANT SkipSame = "no"
 CONSTANT defaultInitValue = 0
